@@ -2,3 +2,5 @@
 import AllfedModel.Props.C10
 import AllfedModel.Props.C18
 import AllfedModel.Props.C11
+import AllfedModel.Props.C06
+import AllfedModel.Props.C07
